@@ -1,5 +1,5 @@
 import PcfgVerif.Generated.PrintSites
-import PcfgVerif.Model.ExpandSpec
+import PcfgVerif.Properties.ExpandCore
 /-!
 # C09 — standard output is exactly the guess stream, and `--limit` is exact
 
@@ -30,5 +30,31 @@ theorem C09_limit_tests (l : Int) :
 theorem C09_unit_costs :
     Generated.Expand.cLeafCount = 1 ∧ Generated.Expand.cLeafDec = 1 ∧ Generated.Expand.pLeafCount = 1 ∧
     Generated.Expand.pLeafDec = 1 ∧ Generated.Expand.omenCount = 1 ∧ Generated.Expand.omenDec = 1 := by decide
+
+/-- `--limit n` inside one pre-terminal: exactly the first `n` lines of its unlimited expansion, and
+the returned count is `min n total` (also when `n` falls inside a group or inside a mask loop) -/
+theorem C09_limit_preterminal (upper : Char → List Char) (g : EGrammar) (omen : Nat → Option (List Str))
+    (pt : PT) (hpt : pt ≠ []) (hok : okSpec upper g [] pt = true) (n : Nat) (hn : 1 ≤ n) :
+    createGuesses upper g omen pt (some (n : Int)) =
+      ⟨(productSpec upper g [] pt).take n, min n (productSpec upper g [] pt).length, false⟩ :=
+  recGuesses_limit upper g omen [] pt hpt hok n hn
+
+/-- the same inside a Markov level -/
+theorem C09_limit_markov (gs : List Str) (n : Nat) (hn : 1 ≤ n) :
+    omenLoop gs (some (n : Int)) = ⟨gs.take n, min n gs.length, false⟩ :=
+  omenLoop_limit gs n hn
+
+/-- across the session loop: whatever sequence of pre-terminals the queue pops, `--limit N` writes the
+first `N` lines of the unlimited run (all of them when there are fewer) -/
+theorem C09_limit_session (gen : PT → Option Int → ERes) (hgen : ExactLimit gen)
+    (pts : List PT) (n : Nat) (hn : 1 ≤ n) :
+    sessionLoop gen pts (some (n : Int)) = (sessionLoop gen pts none).take n ∧
+    (sessionLoop gen pts (some (n : Int))).length = min n (sessionLoop gen pts none).length := by
+  have h := sessionLoop_limit gen hgen pts n hn
+  exact ⟨h, by rw [h, List.length_take]⟩
+
+/-- non-vacuity: limit 3 falls inside the mask loop of `A2 C2 D1` -/
+example : (createGuesses ExpandExample.up ExpandExample.gr (fun _ => none) ExpandExample.pt0 (some 3)).out =
+    (productSpec ExpandExample.up ExpandExample.gr [] ExpandExample.pt0).take 3 := by decide
 
 end Pcfg.C09
